@@ -31,6 +31,9 @@ type SeqJob struct {
 	Run func(ctx *SeqCtx)
 	// Replay re-executes one recorded case (Violation.Ops) and returns clause/detail.
 	Replay func(ops []string) (string, string)
+	// Only, when set, says which clauses of the job this property's statement speaks of (a job borrowed from a sibling
+	// for part of what it observes); the others are the sibling's business and are not reported here.
+	Only func(clause string) bool
 }
 
 // SeqCtx collects coverage and the first violation of a seq job.
@@ -160,6 +163,9 @@ func (c *SeqCtx) Outcome(o string) { c.st.Outcomes[o]++ }
 // Fail records the first violation.
 func (c *SeqCtx) Fail(clause, detail string, ops []string) {
 	if c.viol != nil {
+		return
+	}
+	if c.job.Only != nil && !c.job.Only(clause) {
 		return
 	}
 	if sig := c.job.Property + "/" + c.job.Name + "/" + clause; knownSigs[sig] {
